@@ -28,6 +28,7 @@
 #include <string>
 
 #include "node.h"
+#include "convert.h"
 #include "parse.h"
 #include "config.h"
 #include "layout.h"
@@ -285,19 +286,15 @@ static int mem_getc(void *p)
 	if (!*m->pos) return -1;
 	return (unsigned char) *m->pos++;
 }
-/* first two blank-separated words of a section name: kind and item name (copying bytes only) */
+/* type word and item name of a section identifier, cut by the library's own keyword scanner (as add_items does) */
 static int split_ident(const char *id, std::string &kind, std::string &name)
 {
-	const char *p = id, *e;
+	const char *pos = id, *key;
+	size_t len = 0;
 	kind.clear(); name.clear();
-	if (!p) return 0;
-	while (*p == ' ' || *p == '\t') ++p;
-	for (e = p; *e && *e != ' ' && *e != '\t'; ++e) { }
-	kind.assign(p, e - p);
-	p = e;
-	while (*p == ' ' || *p == '\t') ++p;
-	for (e = p; *e && *e != ' ' && *e != '\t' && *e != ':'; ++e) { }
-	name.assign(p, e - p);
+	if (!id) return 0;
+	if ((key = mpt::mpt_convert_key(&pos, 0, &len))) kind.assign(key, len);
+	if ((key = mpt::mpt_convert_key(&pos, ":", &len))) name.assign(key, len);
 	return 1;
 }
 static void emit_csections(const mpt::node *head, count_logger *out, int depth)
@@ -409,6 +406,27 @@ static void drv_step(struct cmd *c)
 		emit_layout(mode);
 		drv_dbg();
 		drv_end();
+		return;
+	}
+	if (!strcmp(a, "inst")) {                  /* a node that carries an item instance, handed to add_items */
+		const char *kind = drv_raw(c, "kind");
+		char *name = arg_text(c, "name");
+		mpt::item_group fac;
+		mpt::metatype *mt = fac.create(kind ? kind : "axis");
+		mpt::node *n = mpt::node::create(name, -1);
+		int ok = 0;
+		if (mt && n) {
+			n->_meta = mt;                      /* the node owns this reference */
+			ok = mpt::add_items(*lay, n, 0, logc) ? 1 : 0;
+		}
+		if (n) mpt::mpt_node_destroy(n);        /* drops the node's reference; the group keeps its own */
+		else if (mt) mt->unref();
+		drv_begin(c);
+		j_str("ret", (loaded && ok) ? "ok" : "failed");
+		emit_layout(M_NONE);
+		drv_dbg();
+		drv_end();
+		free(name);
 		return;
 	}
 	if (!strcmp(a, "dump")) {
